@@ -57,6 +57,14 @@ def Table.add (t : Table α) (v : α) : Except Fault (Table α × Nat) :=
   | .ok (t1, i) => .ok ({ t1 with vals := wr t1.vals i v, nxs := wr t1.nxs i 0 }, i)
 
 def Table.setNext (t : Table α) (i x : Nat) : Table α := { t with nxs := wr t.nxs i x }
+/-- the public `Table::set_next`: asserts `index != 0` and (in `Entry::set_next`) `next < 2^31` -/
+def Table.setNextChecked (t : Table α) (i x : Nat) : Except Fault (Table α) :=
+  if i = 0 then .error .assertion else
+  if x ≥ 2147483648 then .error .assertion else .ok (t.setNext i x)
+/-- `Table::set_value` / `*value_mut(index) = v` / `table[index] = v`: overwrite the value of a cell
+without touching its chain (asserts `index != 0`) -/
+def Table.setValue (t : Table α) (i : Nat) (v : α) : Except Fault (Table α) :=
+  if i = 0 then .error .assertion else .ok { t with vals := wr t.vals i v }
 def Table.setBucket (t : Table α) (b x : Nat) : Table α := { t with buckets := wr t.buckets b x }
 
 variable [DecidableEq α] [MyHash α]
